@@ -20,6 +20,8 @@
 #include <amgcl/backend/builtin.hpp>
 #include <amgcl/adapter/crs_tuple.hpp>
 #include <amgcl/make_solver.hpp>
+#include <amgcl/backend/detail/mixing.hpp>
+#include <amgcl/value_type/static_matrix.hpp>
 #include <amgcl/preconditioner/runtime.hpp>
 #include <amgcl/solver/runtime.hpp>
 #include "vf.hpp"
@@ -160,6 +162,25 @@ int main(int argc, char **argv) {
             }
         }
         vf::space(vf::KS() << sys.size() << " SPD M-matrix diffusion systems (C01 grid family, n <= 150) x (4 coarsenings x 9 relaxations as AMG + 9 relaxations alone) x " << solvers.size() << " solvers = " << ncase << " cases, float vs double preconditioner");
+    }
+    // mixed block / scalar backends of different precision (the pressure-correction preconditioners combine a block U-solver with a
+    // scalar P-solver): the common backend they compute in is documented as "the backend with scalar value_type of highest
+    // precision" -- all ordered pairs of {float, double} x {scalar, 2x2 block, 3x3 block} with at least one block
+    if (vf::section("mix")) {
+        auto chk = [&](const char *name, size_t got, size_t s1, size_t s2) {
+            std::string key = std::string("mix|") + name;
+            if (!vf::take([&]{ return key; })) return;
+            vf::nontrivial(vf::hstr(key));
+            vf::count("common_backend_pairs");
+            if (got != std::max(s1, s2)) vf::fail("mp.common_scalar_backend", key, vf::KS() << "common_scalar_backend<" << name << "> computes in a scalar of " << got << " bytes, the operands have " << s1 << " and " << s2 << " (highest precision expected)");
+        };
+        #define C13_MIX(N, V1, V2) chk(N, sizeof(typename backend::detail::common_scalar_backend<backend::builtin<V1>, backend::builtin<V2>>::type::value_type), sizeof(typename math::scalar_of<V1>::type), sizeof(typename math::scalar_of<V2>::type))
+        typedef static_matrix<double, 2, 2> D2; typedef static_matrix<float, 2, 2> F2; typedef static_matrix<double, 3, 3> D3; typedef static_matrix<float, 3, 3> F3;
+        C13_MIX("double2x2,float", D2, float); C13_MIX("float,double2x2", float, D2); C13_MIX("float2x2,double", F2, double); C13_MIX("double,float2x2", double, F2);
+        C13_MIX("double3x3,float", D3, float); C13_MIX("float3x3,double", F3, double); C13_MIX("double2x2,float3x3", D2, F3); C13_MIX("float2x2,double3x3", F2, D3);
+        C13_MIX("double2x2,double", D2, double); C13_MIX("float,float2x2", float, F2);
+        #undef C13_MIX
+        vf::space("common backend of mixed block/scalar pairs: 10 ordered pairs over {float,double} x {scalar, 2x2, 3x3}");
     }
     vf::sample_str("mp|grid2d_4x4_checker_c100|amg|smoothed_aggregation|spai0|cg: builtin<float> AMG under a builtin<double> CG");
     return vf::finish();
